@@ -27,7 +27,7 @@ def base_consts(dirs=None, mversion=33, local=None, **over):
          'Slack': '0', 'ValueMode': '"classes"', 'Mode': '"produce"', 'ResetPolicy': '"fm94"',
          'TableDirs': tlc.tla_val(list(dirs or table_dirs(mversion, local))), 'ExtraB': '<<>>', 'ExtraD': '<<>>',
          'MasterVersion': str(mversion), 'LocalVersion': str(local[2] if local else 0),
-         'Centre': str(local[0] if local else 0), 'SubCentre': str(local[1] if local else 0)}
+         'Centre': str(local[0] if local else 0), 'SubCentre': str(local[1] if local else 0), 'IdentVariant': '0'}
     c.update(over)
     return c
 
@@ -38,12 +38,12 @@ def tla_set(xs):
 
 def gen_run(wd, name, templates, editions=(4,), compressions=(False, True), subset_counts=(1, 2),
             fmax=2, seeds=(0,), slack=0, mversion=33, local=None, reset='fm94', invariants=None, value_mode='classes', emit='Emit', properties=(),
-            workers=16, timeout=3000, coverage=False):
+            workers=16, timeout=3000, coverage=False, identv=0):
     consts = base_consts(
         Cases='<<' + ', '.join('[ids |-> %s]' % tlc.tla_val(list(t)) for t in templates) + '>>',
         Editions=tla_set(editions), Compressions=tla_set(compressions), SubsetCounts=tla_set(subset_counts),
         Fmax=str(fmax), Seeds=tla_set(seeds), Slack=str(slack), Mode='"produce"', ResetPolicy=tlc.tla_str(reset),
-        ValueMode=tlc.tla_str(value_mode), dirs=table_dirs(mversion, local), mversion=mversion, local=local)
+        ValueMode=tlc.tla_str(value_mode), dirs=table_dirs(mversion, local), mversion=mversion, local=local, IdentVariant=str(identv))
     text = tlc.mc_module(name, ['FM94Gen'], consts)
     invs = list(invariants if invariants is not None else
                 ['TypeOK', 'MissingIffAllOnes', 'LinksPointBack', 'CursorIsSumOfWidths',
@@ -171,7 +171,13 @@ def compare_decoded(beh, msg, what='decode'):
     return None
 
 
+IDENT_MAX = dict(centre=65535, subcentre=65535, update=255, category=255, intlsub=255, localsub=255, year=2000, yoc=100,
+                 month=12, day=31, hour=23, minute=59, second=59)
+
+
 def ident_of(beh):
+    if beh.get('identv') == 1:
+        return dict(IDENT_MAX, mversion=beh.get('mversion', 33), lversion=0)
     return {'mversion': beh.get('mversion', 33), 'lversion': beh.get('lversion', 0),
             'centre': beh.get('centre', 0), 'subcentre': beh.get('subcentre', 0)}
 
@@ -278,8 +284,8 @@ def batch_plan(tier, seed):
         plan.append(('v33 plain', 'plain', dict(mversion=33, subset_counts=(1, 2), seeds=(rot, (rot + 2) % 5), slack=1)))
         plan.append(('v33 struct', 'struct', dict(mversion=33, subset_counts=(1, 2), seeds=(rot,), fmax=2, slack=0)))
         plan.append(('v33 bitmap', 'bitmap', dict(mversion=33, subset_counts=(1, 2), seeds=((rot + 1) % 5,), fmax=2, slack=0)))
-        plan.append(('v35 plain ed3', 'plain', dict(mversion=35, editions=(3,), subset_counts=(2,), seeds=((rot + 3) % 5,), slack=0)))
-        plan.append(('v13 struct ed2', 'struct', dict(mversion=13, editions=(2,), subset_counts=(1,), seeds=((rot + 4) % 5,), fmax=1, slack=0)))
+        plan.append(('v35 plain ed3', 'plain', dict(mversion=35, editions=(3,), subset_counts=(2,), seeds=((rot + 3) % 5,), slack=0, identv=1)))
+        plan.append(('v13 struct ed2', 'struct', dict(mversion=13, editions=(2,), subset_counts=(1,), seeds=((rot + 4) % 5,), fmax=1, slack=0, identv=1)))
         # grammar-derived templates of this seed (vf/gen.py), each group under another table version / edition
         mv = [(33, 4), (35, 3), (13, 2), (41, 4), (19, 3)]
         for k, g in enumerate(('rnd_plain', 'rnd_struct', 'rnd_bitmap')):
